@@ -27,6 +27,7 @@ func (s *scanner) Scan(value bytes.Bytes) (*Number, error) {
 	for i, c := range value.Data() {
 		s.index = i
 		s.finished = true
+		verifScanStep(s.stateFn, c, i, len(value.Data()))
 		if !s.stateFn(c) {
 			return nil, errs.ErrIncorrectNumberValue.F(value.String())
 		}
